@@ -368,13 +368,21 @@ def check(ctx):
         if f is None or f.is_property or c.name in ("Config", "BaseField") or c.is_subclass_of(model.cls("BaseField")) or c.is_subclass_of(model.cls("Config")):
             continue
 
+        def is_cfg(x, f=f):
+            """<self>.cfg, or a local copy of it (the parameter of a helper expanded here)"""
+            if isinstance(x, ast.Attribute) and x.attr in ("cfg", "config", "_cfg"):
+                return True
+            if isinstance(x, ast.Name):
+                ss = value_sources(f, x, None)
+                return bool(ss) and all(k_ == "expr" and isinstance(p_, ast.Attribute) and p_.attr in ("cfg", "config", "_cfg") for k_, p_ in ss)
+            return False
+
         def owner_expr(e):
             """<self>.cfg._ref_path, or getattr(<self>.cfg, "_ref_path"[, default])"""
-            if isinstance(e, ast.Attribute) and e.attr == "_ref_path" and isinstance(e.value, ast.Attribute) and e.value.attr in ("cfg", "config", "_cfg"):
+            if isinstance(e, ast.Attribute) and e.attr == "_ref_path" and is_cfg(e.value):
                 return True
             if isinstance(e, ast.Call) and isinstance(e.func, ast.Name) and e.func.id == "getattr" and len(e.args) >= 2 \
-                    and isinstance(e.args[0], ast.Attribute) and e.args[0].attr in ("cfg", "config", "_cfg") \
-                    and isinstance(e.args[1], ast.Constant) and e.args[1].value == "_ref_path":
+                    and is_cfg(e.args[0]) and isinstance(e.args[1], ast.Constant) and e.args[1].value == "_ref_path":
                 return True
             return False
 
